@@ -306,15 +306,58 @@ func (c *Ctx) InfoNote(rule, key string, pos token.Pos, detail string) {
 	c.add(&Obligation{Rule: rule, Key: key, Pos: c.P.Pos(pos), Verdict: Info, Detail: detail})
 }
 
+// trustedKeyMatch: exact, or with one "{*}" standing for any text when the entry carries premises
+// (the premises, checked on every run, are what pins down the part the key leaves open).
+func trustedKeyMatch(t TrustedSite, key string) bool {
+	if t.Key == key {
+		return true
+	}
+	i := strings.Index(t.Key, "{*}")
+	if i < 0 || len(t.Premises) == 0 || strings.Count(t.Key, "{*}") != 1 {
+		return false
+	}
+	pre, suf := t.Key[:i], t.Key[i+3:]
+	return len(key) >= len(pre)+len(suf) && strings.HasPrefix(key, pre) && strings.HasSuffix(key, suf)
+}
+
 func (c *Ctx) classify(o *Obligation) {
 	for i, t := range c.trusted {
-		if ruleFamily(t.Rule) == ruleFamily(o.Rule) && t.Key == o.Key {
+		if ruleFamily(t.Rule) == ruleFamily(o.Rule) && trustedKeyMatch(t, o.Key) {
 			if len(t.Premises) > 0 {
-				if c.premiseCheck == nil {
-					continue
+				// "rule:<name>": the argument rests on another rule, which must have run before in
+				// this check and have discharged every one of its obligations
+				var lin []string
+				failed := ""
+				for _, pr := range t.Premises {
+					if !strings.HasPrefix(pr, "rule:") {
+						lin = append(lin, pr)
+						continue
+					}
+					name := strings.TrimPrefix(pr, "rule:")
+					n := 0
+					for _, x := range c.Obls {
+						if x.Rule != name {
+							continue
+						}
+						n++
+						if x.Verdict != Discharged && x.Verdict != Info {
+							failed = "rule " + name + " has an obligation that is not discharged: " + x.Key
+						}
+					}
+					if n == 0 {
+						failed = "rule " + name + " has not established anything in this run"
+					}
 				}
-				if ok, why := c.premiseCheck(o, t.Premises); !ok {
-					o.Detail += " [a written argument exists for this site but its premise no longer holds: " + why + "]"
+				if failed == "" && len(lin) > 0 {
+					if c.premiseCheck == nil {
+						continue
+					}
+					if ok, why := c.premiseCheck(o, lin); !ok {
+						failed = why
+					}
+				}
+				if failed != "" {
+					o.Detail += " [a written argument exists for this site but its premise no longer holds: " + failed + "]"
 					continue
 				}
 			}
